@@ -80,14 +80,10 @@ theorem mem_allFieldsOf_last (w : World) (src : ClassSrc) (n : String) (m : Memb
     List.flatten_cons, List.flatten_nil, List.append_nil, lookup_updateAll]
   simp [← List.append_assoc, lookup]
 
-/-- the appended own entry is what `getattr` returns for its name -/
+/-- the appended own entry is the member of its name -/
 theorem mem_resolvedFields_last (w : World) (src : ClassSrc) (n : String) (m : Member) :
-    (n, m) ∈ resolvedFields w (addEntry src n (.obj m)) := by
-  have h := mem_allFieldsOf_last w src n m
-  have hr : resolveAttr w (addEntry src n (.obj m)) n = some m := by
-    simp [resolveAttr, addEntry, ownMembers_append_obj, lookup]
-  simp only [resolvedFields, List.mem_map]
-  exact ⟨(n, m), h, by simp [hr]⟩
+    (n, m) ∈ resolvedFields w (addEntry src n (.obj m)) :=
+  mem_allFieldsOf_last w src n m
 
 theorem mem_entries_addEntry (src : ClassSrc) (n : String) (e : SrcEntry) :
     (n, e) ∈ (addEntry src n e).entries := by simp [addEntry]
